@@ -14,22 +14,27 @@
    evaluated  fingerprint label the loop evaluated last (initially the initial content)
    loaded     what the application loaded last: the content the callback read
    cbp        a callback announced its fingerprint and has not read the file yet
+   win        the callback window: from that announcement until the loop's first read of the
+              file after the callback read it
+   shaky      a file operation overlapped the callback window of the last evaluation: what
+              the callback read cannot be known to the loop, the evaluation is not certain
    tStable    time the last file operation ended;  tCb  time of the last callback read *)
 EXTENDS Integers, FiniteSets
 
-VARIABLES file, since, torn, inop, evaluated, loaded, cbp, tStable, tCb, bound
-ovars == <<file, since, torn, inop, evaluated, loaded, cbp, tStable, tCb, bound>>
+VARIABLES file, since, torn, inop, evaluated, loaded, cbp, win, shaky, tStable, tCb, bound
+ovars == <<file, since, torn, inop, evaluated, loaded, cbp, win, shaky, tStable, tCb, bound>>
 
 OReset(init, b) == /\ file' = init /\ since' = {init} /\ torn' = FALSE /\ inop' = FALSE
-                   /\ evaluated' = init /\ loaded' = init /\ cbp' = FALSE
+                   /\ evaluated' = init /\ loaded' = init /\ cbp' = FALSE /\ win' = FALSE /\ shaky' = FALSE
                    /\ tStable' = 0 /\ tCb' = 0 /\ bound' = b
 
 OpBegin(kind, c) == /\ ~inop /\ inop' = TRUE
                     /\ file' = c /\ since' = since \cup {c}
                     /\ torn' = (torn \/ kind = "write")
-                    /\ UNCHANGED <<evaluated, loaded, cbp, tStable, tCb, bound>>
+                    /\ shaky' = (shaky \/ win)
+                    /\ UNCHANGED <<evaluated, loaded, cbp, win, tStable, tCb, bound>>
 OpEnd(t) == /\ inop /\ inop' = FALSE /\ tStable' = t
-            /\ UNCHANGED <<file, since, torn, evaluated, loaded, cbp, tCb, bound>>
+            /\ UNCHANGED <<file, since, torn, evaluated, loaded, cbp, win, shaky, tCb, bound>>
 
 \* the loop read the file: it saw a content the file held since its previous read
 Saw(x) == x \in since \/ torn
@@ -37,19 +42,24 @@ Forget == /\ since' = IF inop THEN since ELSE {file}
           /\ torn' = (inop /\ torn)
 
 Reconcile(fp) == /\ Saw(fp) /\ Forget
-                 /\ UNCHANGED <<file, inop, evaluated, loaded, cbp, tStable, tCb, bound>>
+                 /\ win' = (win /\ cbp)        \* the first read after the callback's closes the window
+                 /\ UNCHANGED <<file, inop, evaluated, loaded, cbp, shaky, tStable, tCb, bound>>
 
 \* the callback is about to run for fingerprint fp: never for what was evaluated last
-\* (hence at most once per distinct content while it stays)
-Callback(fp) == /\ ~cbp /\ fp # evaluated
-                /\ evaluated' = fp /\ cbp' = TRUE
+\* (hence at most once per distinct content while it stays).  An evaluation counts only
+\* if the callback really read that content: when it read something else (the file was
+\* changed under it) the application does not hold fp, and evaluating fp again is right;
+\* and when a file operation overlapped the callback window the loop cannot know what was
+\* read (the file did not "stay unchanged"), so evaluating fp once more is allowed.
+Callback(fp) == /\ ~cbp /\ (fp # evaluated \/ loaded # evaluated \/ shaky)
+                /\ evaluated' = fp /\ cbp' = TRUE /\ win' = TRUE /\ shaky' = inop
                 /\ UNCHANGED <<file, since, torn, inop, loaded, tStable, tCb, bound>>
 
 \* the callback read the file
 CbRead(x, t) == /\ cbp /\ cbp' = FALSE
                 /\ Saw(x) /\ Forget
                 /\ loaded' = x /\ tCb' = t
-                /\ UNCHANGED <<file, inop, evaluated, tStable, bound>>
+                /\ UNCHANGED <<file, inop, evaluated, win, shaky, tStable, bound>>
 
 \* the loop is at rest after the file stopped changing: it evaluated exactly the file's
 \* content, the callback ran for that content (the application holds it), and it did so
